@@ -275,7 +275,10 @@ func (db *CacheDB) CreateBucket(name []byte) (DBBucket, error) {
 	if _, err := db.db.CreateBucket(name); err != nil {
 		return nil, err
 	}
-	return db.mem.CreateBucket(name)
+	if _, err := db.mem.CreateBucket(name); err != nil {
+		return nil, err
+	}
+	return db.Bucket(name), nil
 }
 
 // Flush implements DB.
